@@ -135,6 +135,14 @@ EmbedShapes == <<
   \* an embedded message (by value) that has a oneof group of its own: its branches are fields of the embedding message
   Shape("e.val.oneof", Desc(<<Msg("Inner", <<Fld("Num", 1, "int32"), InOneof(Fld("BranchA", 2, "string"), "Grp"), InOneof(Fld("BranchB", 3, "int32"), "Grp")>>, <<"Grp">>),
         Msg("Root", <<Fld("Str", 1, "string"), NonNull(Embed(MsgF("Inner", 2, "Inner")))>>, <<>>)>>), BaseCfg),
+  \* ... embedded into a message that has a oneof group of its OWN, declared after / before the embedded message
+  Shape("e.val.oneof.early", Desc(<<Msg("Inner", <<InOneof(Fld("BranchA", 1, "string"), "Grp"), InOneof(Fld("BranchB", 2, "int32"), "Grp")>>, <<"Grp">>),
+        Msg("Root", <<NonNull(Embed(MsgF("Inner", 1, "Inner"))), InOneof(Fld("BranchC", 2, "string"), "Grp2"), InOneof(Fld("BranchD", 3, "bool"), "Grp2")>>, <<"Grp2">>)>>), BaseCfg),
+  Shape("e.val.oneof.late", Desc(<<Msg("Inner", <<InOneof(Fld("BranchA", 1, "string"), "Grp"), InOneof(Fld("BranchB", 2, "int32"), "Grp")>>, <<"Grp">>),
+        Msg("Root", <<InOneof(Fld("BranchC", 1, "string"), "Grp2"), InOneof(Fld("BranchD", 2, "bool"), "Grp2"), NonNull(Embed(MsgF("Inner", 3, "Inner")))>>, <<"Grp2">>)>>), BaseCfg),
+  \* an embedded message whose FIELD is not named like its type (gogo names the struct member after the type)
+  Shape("e.ptr.named", Desc(<<Leaf, Msg("Root", <<Fld("Num", 1, "int32"), Embed(MsgF("Extra", 2, "Leaf"))>>, <<>>)>>), BaseCfg),
+  Shape("e.val.named", Desc(<<Leaf, Msg("Root", <<NonNull(Embed(MsgF("Extra", 1, "Leaf"))), Fld("Num", 2, "int32")>>, <<>>)>>), BaseCfg),
   \* a pointer scalar below a nullable embedded message (two nil checks in a row)
   Shape("e.ptr.time", Desc(<<Msg("Inner", <<StdTime("When", 1), Fld("Str", 2, "string")>>, <<>>),
         Msg("Root", <<Fld("Num", 1, "int32"), Embed(MsgF("Inner", 2, "Inner"))>>, <<>>)>>), BaseCfg),
